@@ -20,7 +20,7 @@ pub fn c13_unit() -> Unit {
     Unit::new(
         "real-binary/run",
         9,
-        "the repository's own release binary runs guest shapes {counted loop, call in loop, port write in loop} with loop counts {N*-1, N*, N*+1} around the first sync threshold (N* computed on the implementation): its `msg:` stream must equal the message sequence of the in-process run of the same program and the process must exit normally; a guest with a failing instruction must end the process with a failure status",
+        "the repository's own release binary runs guest shapes {counted loop, call in loop, port write in loop} with loop counts {N*-1, N*, N*+1} around the first sync threshold (N* computed on the implementation): its `msg:` stream must equal the message sequence of the in-process run of the same program and the process must exit normally; a guest with a failing instruction must end the process with a failure status; every terminating guest a second time with -w but without -s (the flag alone must change nothing)",
         move |ctx, chunk| {
             let bin = match repo_binary() {
                 Some(b) => b,
@@ -49,6 +49,17 @@ pub fn c13_unit() -> Unit {
                 let path = scratch(&format!("run{}", chunk));
                 let _ = std::fs::write(&path, &file);
                 let out = std::process::Command::new("timeout").args(["30", &bin, "-e", path.to_str().unwrap_or(""), "-m", "--log", "off"]).env("RUST_BACKTRACE", "0").output();
+                // the wait-for-start flag means something only together with the socket: alone it must change nothing
+                if fail == 0 {
+                    let outw = std::process::Command::new("timeout").args(["20", &bin, "-e", path.to_str().unwrap_or(""), "-m", "-w", "--log", "off"]).env("RUST_BACKTRACE", "0").output();
+                    ctx.st.cases += 1;
+                    ctx.st.nontrivial += 1;
+                    if let (Ok(a), Ok(b)) = (&out, &outw) {
+                        if a.stdout != b.stdout || a.status.code() != b.status.code() {
+                            ctx.custom_violation("c13", format!("with -w but without -s the binary behaves differently: exit {:?} vs {:?}, {} vs {} bytes of messages (124 = killed after 20 s)", b.status.code(), a.status.code(), b.stdout.len(), a.stdout.len()), json!({"shape": shape, "n": n, "fail": fail, "real_binary": true, "flags": "-w"}), json!(null), json!(null));
+                        }
+                    }
+                }
                 let _ = std::fs::remove_file(&path);
                 ctx.st.cases += 1;
                 ctx.st.nontrivial += 1;
